@@ -1,0 +1,267 @@
+//go:build verif
+
+package distribution
+
+// Contracts for the deductive checker in /verif (comment-only; compiled only with -tags verif).
+// C16, query side: the read-only distribution methods report what the native distribution queries report.
+// Lib specs: /verif/specs/c16d/70_distr_query.spec (native distribution queries over the abstract Cosmos state),
+// /verif/specs/c16d-pre/50_abi_copy.spec (abi.Arguments.Copy), /verif/specs/c04 (address model), /verif/specs/c16q (context, page types).
+
+/*@
+alias VDInfoT github.com/haqq-network/haqq/precompiles/distribution.ValidatorDistributionInfo
+alias SlashEvT github.com/haqq-network/haqq/precompiles/distribution.ValidatorSlashEvent
+alias SlashEvList []github.com/haqq-network/haqq/precompiles/distribution.ValidatorSlashEvent
+alias SdkSlashEv github.com/cosmos/cosmos-sdk/x/distribution/types.ValidatorSlashEvent
+alias DelRewT github.com/haqq-network/haqq/precompiles/distribution.DelegationDelegatorReward
+alias DelRewList []github.com/haqq-network/haqq/precompiles/distribution.DelegationDelegatorReward
+alias SdkDelRew github.com/cosmos/cosmos-sdk/x/distribution/types.DelegationDelegatorReward
+
+// ------------------------------------------------------------------ request constructors: the request is the decoded arguments
+// A validator argument that is not a string counts as the empty string (`validatorAddress, _ := args[i].(string)`), which every
+// native handler refuses ("empty validator address"): the outcome is the native refusal.
+specfunc StrOrEmpty(x int) string = ite(isdyn(x, string), dyn(x, string), "")
+
+func NewValidatorDistributionInfoRequest
+    ensures err_iff: (result.1 == nil) == (len(args) == 1)
+    ensures fields: result.1 == nil ==> result.0 != nil && fresh(result.0) && result.0.ValidatorAddress == StrOrEmpty(args[0])
+    ensures refused: result.1 != nil ==> result.0 == nil
+
+func NewValidatorOutstandingRewardsRequest
+    ensures err_iff: (result.1 == nil) == (len(args) == 1)
+    ensures fields: result.1 == nil ==> result.0 != nil && fresh(result.0) && result.0.ValidatorAddress == StrOrEmpty(args[0])
+    ensures refused: result.1 != nil ==> result.0 == nil
+
+func NewValidatorCommissionRequest
+    ensures err_iff: (result.1 == nil) == (len(args) == 1)
+    ensures fields: result.1 == nil ==> result.0 != nil && fresh(result.0) && result.0.ValidatorAddress == StrOrEmpty(args[0])
+    ensures refused: result.1 != nil ==> result.0 == nil
+
+// (validator, starting height, ending height, page request) copied through abi.Arguments.Copy into ValidatorSlashesInput; the
+// request points at the copied page request
+func NewValidatorSlashesRequest
+    requires method: method != nil
+    let ok = len(args) == 4 && isdyn(args[1], uint64) && isdyn(args[2], uint64) && abi_copy_ok(method.Inputs, args)
+    ensures err_iff: (result.1 == nil) == ok
+    ensures fields: result.1 == nil ==> result.0 != nil && fresh(result.0) && isdyn(args[0], string) && result.0.ValidatorAddress == dyn(args[0], string)
+            && result.0.StartingHeight == dyn(args[1], uint64) && result.0.EndingHeight == dyn(args[2], uint64)
+            && result.0.Pagination != nil && (isdyn(args[3], PageReqABI) ==> pagereq_copied(*result.0.Pagination, dyn(args[3], PageReqABI)))
+    ensures refused: result.1 != nil ==> result.0 == nil
+
+func NewDelegationRewardsRequest
+    let ok = len(args) == 2 && isdyn(args[0], Address) && dyn(args[0], Address) != zero_EvmAddr
+    ensures err_iff: (result.1 == nil) == ok
+    ensures fields: result.1 == nil ==> result.0 != nil && fresh(result.0) && result.0.DelegatorAddress == bech_of(dyn(args[0], Address))
+            && result.0.ValidatorAddress == StrOrEmpty(args[1])
+    ensures refused: result.1 != nil ==> result.0 == nil
+
+func NewDelegationTotalRewardsRequest
+    let ok = len(args) == 1 && isdyn(args[0], Address) && dyn(args[0], Address) != zero_EvmAddr
+    ensures err_iff: (result.1 == nil) == ok
+    ensures fields: result.1 == nil ==> result.0 != nil && fresh(result.0) && result.0.DelegatorAddress == bech_of(dyn(args[0], Address))
+    ensures refused: result.1 != nil ==> result.0 == nil
+
+func NewDelegatorValidatorsRequest
+    let ok = len(args) == 1 && isdyn(args[0], Address) && dyn(args[0], Address) != zero_EvmAddr
+    ensures err_iff: (result.1 == nil) == ok
+    ensures fields: result.1 == nil ==> result.0 != nil && fresh(result.0) && result.0.DelegatorAddress == bech_of(dyn(args[0], Address))
+    ensures refused: result.1 != nil ==> result.0 == nil
+
+func NewDelegatorWithdrawAddressRequest
+    let ok = len(args) == 1 && isdyn(args[0], Address) && dyn(args[0], Address) != zero_EvmAddr
+    ensures err_iff: (result.1 == nil) == ok
+    ensures fields: result.1 == nil ==> result.0 != nil && fresh(result.0) && result.0.DelegatorAddress == bech_of(dyn(args[0], Address))
+    ensures refused: result.1 != nil ==> result.0 == nil
+
+// ------------------------------------------------------------------ output conversions: every field of the output is the native field
+func (*ValidatorDistributionInfoOutput).FromResponse
+    requires nonnil: res != nil
+    ensures operator: result.DistributionInfo.OperatorAddress == res.OperatorAddress
+    ensures self_bond: deccoins_conv(result.DistributionInfo.SelfBondRewards, res.SelfBondRewards)
+    ensures commission: deccoins_conv(result.DistributionInfo.Commission, res.Commission)
+
+// slash event: (period, fraction as (mantissa, precision 18))
+specfunc slash_conv(o SlashEvT, e SdkSlashEv) bool = o.ValidatorPeriod == e.ValidatorPeriod && bigis(o.Fraction.Value, e.Fraction) && o.Fraction.Precision == 18
+
+func (*ValidatorSlashesOutput).FromResponse
+    requires nonnil: res != nil
+    modifies *vs
+    ensures same: result == vs
+    ensures shape: len(vs.Slashes) == len(res.Slashes)
+    ensures elems: forall k int :: 0 <= k && k < len(res.Slashes) ==> slash_conv(vs.Slashes[k], res.Slashes[k])
+    ensures page: res.Pagination != nil ==> vs.PageResponse.Total == res.Pagination.Total && vs.PageResponse.NextKey == res.Pagination.NextKey
+    ensures nopage: res.Pagination == nil ==> vs.PageResponse == old(vs.PageResponse)
+    loop 1 invariant idx: 0 <= #i && #i <= len(res.Slashes) && len(vs.Slashes) == len(res.Slashes) && vs.PageResponse == old(vs.PageResponse)
+    loop 1 invariant elems: forall k int :: 0 <= k && k < #i ==> slash_conv(vs.Slashes[k], res.Slashes[k]) && fresh(vs.Slashes[k].Fraction.Value)
+
+// per-validator reward: (validator operator string, the rewards as ABI decimal coins)
+specfunc delrew_conv(o DelRewT, r SdkDelRew) bool = o.ValidatorAddress == r.ValidatorAddress && deccoins_conv(o.Reward, r.Reward)
+
+func (*DelegationTotalRewardsOutput).FromResponse
+    requires nonnil: res != nil
+    modifies *dtr
+    ensures same: result == dtr
+    ensures shape: len(dtr.Rewards) == len(res.Rewards)
+    ensures elems: forall k int :: 0 <= k && k < len(res.Rewards) ==> delrew_conv(dtr.Rewards[k], res.Rewards[k])
+    ensures total: deccoins_conv(dtr.Total, res.Total)
+    loop 1 invariant idx: 0 <= #i && #i <= len(res.Rewards) && len(dtr.Rewards) == len(res.Rewards)
+    loop 1 invariant elems: forall k int :: 0 <= k && k < #i ==> delrew_conv(dtr.Rewards[k], res.Rewards[k])
+
+func (*ValidatorSlashesOutput).Pack
+    inline
+func (*DelegationTotalRewardsOutput).Pack
+    inline
+
+// ------------------------------------------------------------------ the query methods
+// Preconditions are facts of the only call site (Precompile.Run): method is non-nil.
+// Every method makes exactly one native query, with the decoded request, in the caller's context and on the precompile's keeper;
+// what is ABI-packed (call-site clause at abi.Arguments.Pack) is the conversion of the native response, entry by entry; a native
+// refusal is the method's refusal; the Cosmos state, the grants and the EVM balance mirror are untouched (no `modifies`: frame
+// obligations).
+// FINDING (Y2): validatorDistributionInfo, delegationRewards and delegationTotalRewards run a native handler that WRITES
+// (IncrementValidatorPeriod) in the live transaction context: `#frame.world` of these three methods fails.
+alias DecCoinList []github.com/haqq-network/haqq/precompiles/common.DecCoin
+alias StrList []string
+
+// validatorDistributionInfo(validator) -> (operator account string, self-bond rewards, commission)
+func (Precompile).ValidatorDistributionInfo
+    params p, ctx, contract, method, input
+    requires wf: method != nil
+    let okargs = len(input) == 1
+    let val = StrOrEmpty(input[0])
+    let found = qvdi_ok(old(cstate), ctx, val)
+    let R = qvdi_res(old(cstate), ctx, val)
+    let O = dyn(args[0], VDInfoT)
+    call Querier.ValidatorDistributionInfo requires named: req != nil && req.ValidatorAddress == val && sdkctx_of(c) == ctx && k.Keeper == p.distributionKeeper && cstate == old(cstate)
+    call Arguments.Pack requires packed: arguments == method.Outputs && len(args) == 1 && isdyn(args[0], VDInfoT) && O.OperatorAddress == R.OperatorAddress
+            && deccoins_conv(O.SelfBondRewards, R.SelfBondRewards) && deccoins_conv(O.Commission, R.Commission)
+    modifies cstate
+    // a query changes nothing (FINDING Y2: the native handler's IncrementValidatorPeriod is run in the live context)
+    ensures untouched: cstate == old(cstate)
+    ensures refused: !okargs ==> result.1 != nil && len(result.0) == 0
+    ensures found: okargs && found ==> result.0 == ret(Pack, 1, 0) && result.1 == ret(Pack, 1, 1)
+    ensures native_error: okargs && !found ==> result.1 != nil && len(result.0) == 0
+    ensures wrong_type: okargs && !isdyn(input[0], string) ==> result.1 != nil
+
+// validatorOutstandingRewards(validator) -> the outstanding rewards, coin by coin
+func (Precompile).ValidatorOutstandingRewards
+    params p, ctx, contract, method, input
+    requires wf: method != nil
+    let okargs = len(input) == 1
+    let val = StrOrEmpty(input[0])
+    let found = qvout_ok(cstate, ctx, val)
+    let R = qvout_res(cstate, ctx, val)
+    call Querier.ValidatorOutstandingRewards requires named: req != nil && req.ValidatorAddress == val && sdkctx_of(c) == ctx && k.Keeper == p.distributionKeeper
+    call Arguments.Pack requires packed: arguments == method.Outputs && len(args) == 1 && isdyn(args[0], DecCoinList) && deccoins_conv(dyn(args[0], DecCoinList), R)
+    ensures refused: !okargs ==> result.1 != nil && len(result.0) == 0
+    ensures found: okargs && found ==> result.0 == ret(Pack, 1, 0) && result.1 == ret(Pack, 1, 1)
+    ensures native_error: okargs && !found ==> result.1 != nil && len(result.0) == 0
+    ensures wrong_type: okargs && !isdyn(input[0], string) ==> result.1 != nil
+
+// validatorCommission(validator) -> the accumulated commission, coin by coin
+func (Precompile).ValidatorCommission
+    params p, ctx, contract, method, input
+    requires wf: method != nil
+    let okargs = len(input) == 1
+    let val = StrOrEmpty(input[0])
+    let found = qvcomm_ok(cstate, ctx, val)
+    let R = qvcomm_res(cstate, ctx, val)
+    call Querier.ValidatorCommission requires named: req != nil && req.ValidatorAddress == val && sdkctx_of(c) == ctx && k.Keeper == p.distributionKeeper
+    call Arguments.Pack requires packed: arguments == method.Outputs && len(args) == 1 && isdyn(args[0], DecCoinList) && deccoins_conv(dyn(args[0], DecCoinList), R)
+    ensures refused: !okargs ==> result.1 != nil && len(result.0) == 0
+    ensures found: okargs && found ==> result.0 == ret(Pack, 1, 0) && result.1 == ret(Pack, 1, 1)
+    ensures native_error: okargs && !found ==> result.1 != nil && len(result.0) == 0
+    ensures wrong_type: okargs && !isdyn(input[0], string) ==> result.1 != nil
+
+// validatorSlashes(validator, startingHeight, endingHeight, pageRequest) -> (the slash events of the native page, in its order,
+// and the page response)
+func (Precompile).ValidatorSlashes
+    params p, ctx, contract, method, input
+    requires wf: method != nil
+    let okargs = len(input) == 4 && isdyn(input[1], uint64) && isdyn(input[2], uint64) && abi_copy_ok(method.Inputs, input)
+    let val = dyn(input[0], string)
+    let from = dyn(input[1], uint64)
+    let to = dyn(input[2], uint64)
+    let page = *ret(NewValidatorSlashesRequest, 1, 0).Pagination
+    let found = qslashes_ok(cstate, ctx, val, from, to, page)
+    let R = qslashes_res(cstate, ctx, val, from, to, page)
+    let L = dyn(args[0], SlashEvList)
+    let P = dyn(args[1], SdkPageResp)
+    call Querier.ValidatorSlashes requires named: req == ret(NewValidatorSlashesRequest, 1, 0) && req.ValidatorAddress == val && req.StartingHeight == from && req.EndingHeight == to
+            && sdkctx_of(c) == ctx && k.Keeper == p.distributionKeeper
+    call Querier.ValidatorSlashes requires page: isdyn(old(input[3]), PageReqABI) ==> pagereq_copied(*req.Pagination, dyn(old(input[3]), PageReqABI))
+    call Arguments.Pack requires packed: arguments == method.Outputs && len(args) == 2 && isdyn(args[0], SlashEvList) && isdyn(args[1], SdkPageResp)
+            && len(L) == len(R) && (forall k int :: 0 <= k && k < len(R) ==> slash_conv(L[k], R[k]))
+            && ite(qslashes_haspage(cstate, ctx, val, from, to, page), P.Total == qslashes_page(cstate, ctx, val, from, to, page).Total
+                   && P.NextKey == qslashes_page(cstate, ctx, val, from, to, page).NextKey, P.Total == 0 && len(P.NextKey) == 0)
+    ensures refused: !okargs ==> result.1 != nil && len(result.0) == 0
+    ensures found: okargs && found ==> result.0 == ret(Pack, 1, 0) && result.1 == ret(Pack, 1, 1)
+    ensures native_error: okargs && !found ==> result.1 != nil && len(result.0) == 0
+
+// delegationRewards(delegator, validator) -> the rewards of the delegation, coin by coin
+func (Precompile).DelegationRewards
+    params p, ctx, contract, method, input
+    requires wf: method != nil
+    let okargs = len(input) == 2 && isdyn(input[0], Address) && dyn(input[0], Address) != zero_EvmAddr
+    let del = bech_of(dyn(input[0], Address))
+    let val = StrOrEmpty(input[1])
+    let found = qdelrew_ok(old(cstate), ctx, del, val)
+    let R = qdelrew_res(old(cstate), ctx, del, val)
+    call Querier.DelegationRewards requires named: req != nil && req.DelegatorAddress == del && req.ValidatorAddress == val && sdkctx_of(c) == ctx && k.Keeper == p.distributionKeeper
+            && cstate == old(cstate)
+    call Arguments.Pack requires packed: arguments == method.Outputs && len(args) == 1 && isdyn(args[0], DecCoinList) && deccoins_conv(dyn(args[0], DecCoinList), R)
+    modifies cstate
+    // a query changes nothing (FINDING Y2: the native handler's IncrementValidatorPeriod is run in the live context)
+    ensures untouched: cstate == old(cstate)
+    ensures refused: !okargs ==> result.1 != nil && len(result.0) == 0
+    ensures found: okargs && found ==> result.0 == ret(Pack, 1, 0) && result.1 == ret(Pack, 1, 1)
+    ensures native_error: okargs && !found ==> result.1 != nil && len(result.0) == 0
+    ensures wrong_type: okargs && !isdyn(input[1], string) ==> result.1 != nil
+
+// delegationTotalRewards(delegator) -> (per validator: operator string and rewards, in the native order; the total)
+func (Precompile).DelegationTotalRewards
+    params p, ctx, contract, method, input
+    requires wf: method != nil
+    let okargs = len(input) == 1 && isdyn(input[0], Address) && dyn(input[0], Address) != zero_EvmAddr
+    let del = bech_of(dyn(input[0], Address))
+    let found = qtotrew_ok(old(cstate), ctx, del)
+    let R = qtotrew_res(old(cstate), ctx, del)
+    let T = qtotrew_total(old(cstate), ctx, del)
+    let L = dyn(args[0], DelRewList)
+    call Querier.DelegationTotalRewards requires named: req != nil && req.DelegatorAddress == del && sdkctx_of(c) == ctx && k.Keeper == p.distributionKeeper && cstate == old(cstate)
+    call Arguments.Pack requires packed: arguments == method.Outputs && len(args) == 2 && isdyn(args[0], DelRewList) && isdyn(args[1], DecCoinList)
+            && len(L) == len(R) && (forall k int :: 0 <= k && k < len(R) ==> delrew_conv(L[k], R[k])) && deccoins_conv(dyn(args[1], DecCoinList), T)
+    modifies cstate
+    // a query changes nothing (FINDING Y2: the native handler's IncrementValidatorPeriod is run in the live context)
+    ensures untouched: cstate == old(cstate)
+    ensures refused: !okargs ==> result.1 != nil && len(result.0) == 0
+    ensures found: okargs && found ==> result.0 == ret(Pack, 1, 0) && result.1 == ret(Pack, 1, 1)
+    ensures native_error: okargs && !found ==> result.1 != nil && len(result.0) == 0
+
+// delegatorValidators(delegator) -> the validator operator strings, in the native order
+func (Precompile).DelegatorValidators
+    params p, ctx, contract, method, input
+    requires wf: method != nil
+    let okargs = len(input) == 1 && isdyn(input[0], Address) && dyn(input[0], Address) != zero_EvmAddr
+    let del = bech_of(dyn(input[0], Address))
+    let found = qdelvals_ok(cstate, ctx, del)
+    let R = qdelvals_res(cstate, ctx, del)
+    call Querier.DelegatorValidators requires named: req != nil && req.DelegatorAddress == del && sdkctx_of(c) == ctx && k.Keeper == p.distributionKeeper
+    call Arguments.Pack requires packed: arguments == method.Outputs && len(args) == 1 && isdyn(args[0], StrList) && dyn(args[0], StrList) == R
+    ensures refused: !okargs ==> result.1 != nil && len(result.0) == 0
+    ensures found: okargs && found ==> result.0 == ret(Pack, 1, 0) && result.1 == ret(Pack, 1, 1)
+    ensures native_error: okargs && !found ==> result.1 != nil && len(result.0) == 0
+
+// delegatorWithdrawAddress(delegator) -> the withdraw address string
+func (Precompile).DelegatorWithdrawAddress
+    params p, ctx, contract, method, input
+    requires wf: method != nil
+    let okargs = len(input) == 1 && isdyn(input[0], Address) && dyn(input[0], Address) != zero_EvmAddr
+    let del = bech_of(dyn(input[0], Address))
+    let found = qwithdraw_ok(cstate, ctx, del)
+    let R = qwithdraw_res(cstate, ctx, del)
+    call Querier.DelegatorWithdrawAddress requires named: req != nil && req.DelegatorAddress == del && sdkctx_of(c) == ctx && k.Keeper == p.distributionKeeper
+    call Arguments.Pack requires packed: arguments == method.Outputs && len(args) == 1 && isdyn(args[0], string) && dyn(args[0], string) == R
+    ensures refused: !okargs ==> result.1 != nil && len(result.0) == 0
+    ensures found: okargs && found ==> result.0 == ret(Pack, 1, 0) && result.1 == ret(Pack, 1, 1)
+    ensures native_error: okargs && !found ==> result.1 != nil && len(result.0) == 0
+@*/
